@@ -2,11 +2,11 @@
 CONSTANTS
   Inst = {1, 2}
   Ident = {1, 2}
-  Sizes = {0, 1, 2}
+  Sizes = {1, 2}
   Lookbacks = {1, 2}
-  Times = {3, 4}
+  Times = {4}
   Readers = {}
-  MaxUpd = 2
+  MaxUpd = 1
   ZoneAware = FALSE
   Addrs = {1, 2}
   Zones = {1}
